@@ -10,8 +10,8 @@
    compiler output through the very definitions the theorems are about. *)
 From Coq Require Import List ZArith Bool String PrimFloat.
 From PV Require Import IC10.Values IC10.Machine IC10.MachineProofs IC10.FloatAlg IC10.FloatFacts
-                       Src.Sem Valid.Diff Valid.DiffProofs Model.Fold Model.Tables Model.ForRange.
-From PVGen Require Import GenOps GenForRange.
+                       Src.Sem Valid.Diff Valid.DiffProofs Model.Fold Model.Tables Model.ForRange Model.IfTest.
+From PVGen Require Import GenOps GenForRange GenIfTest.
 Import ListNotations.
 Local Open Scope string_scope.
 
@@ -94,3 +94,35 @@ Proof.
   intros a b s t Hs Ht fuel Hf. assert (t = TLe) as -> by (cbn in Ht; congruence).
   exact (loop_down_is_range _ a b s Hs eq_refl fuel Hf).
 Qed.
+
+(* (5) the test of an `if`: gen_* are re-read from handle_if / try_replace_call_with_branch on every run
+   (tools/pyt2coq/iftest.py).  Python runs the body of `if [not] c` iff  truth(c) xor negated.
+
+   constant test: exactly the branch Python runs is kept (and it is emitted unguarded) ... *)
+Theorem C01_constant_if_keeps_the_branch_python_runs : forall v negated body_present else_present,
+  gen_const_test v negated body_present else_present
+  = (body_present && python_runs_body v negated, else_present && negb (python_runs_body v negated)) /\
+  gen_literal_test v negated body_present else_present
+  = (body_present && python_runs_body v negated, else_present && negb (python_runs_body v negated)).
+Proof. intros; split; [apply const_test_spec | apply literal_test_spec]. Qed.
+
+(* ... run-time test: the one branch instruction placed before the body (comparison, plain value, device
+   test sdse / sdns) is taken -- skipping the body -- exactly when Python does not run the body, with and
+   without `not` (comparisons: for ordered operands, see C01_negated_branch_nan_refuted) *)
+Theorem C01_if_branch_skips_body_iff_python_skips : forall negated,
+  (forall r, compare_branch_taken (gen_compare_uses_negated_suffix negated) r = negb (python_runs_body r negated)) /\
+  (forall t, value_branch_taken (gen_value_branch negated) t = Some (negb (python_runs_body t negated))) /\
+  (forall f set tv, device_test_value f set = Some tv ->
+     device_branch_taken (gen_device_test_branch f negated) set = Some (negb (python_runs_body tv negated))).
+Proof.
+  intros n; repeat split.
+  - intros r; apply compare_branch_spec.
+  - intros t; apply value_branch_spec.
+  - intros f set tv H; apply device_branch_spec; exact H.
+Qed.
+
+(* the premises are satisfiable: `if not sdse(d)` on a device that is not set runs the body *)
+Example C01_if_not_sdse_example :
+  device_test_value "sdse" false = Some false /\ gen_device_test_branch "sdse" true = "bdse" /\
+  device_branch_taken "bdse" false = Some false /\ python_runs_body false true = true.
+Proof. repeat split; reflexivity. Qed.
